@@ -285,7 +285,7 @@ pub fn run(ctx: &mut RunCtx) {
     pa.ops = 1..4;
     pa.ws = 1..5;
     pa.nested_values = false;
-    let cases = ctx.tier.pick(2500, 160_000);
+    let cases = ctx.tier.pick(12_000, 160_000);
     ctx.shrink_iters = 200;
     let skip_post_commit = ctx.excluding("fault-after-log-commit");
     ctx.explore(
